@@ -24,6 +24,9 @@ type zone struct {
 	idx map[zAtom]int
 	d   [][]int64 // d[i][j] = upper bound on atom_i - atom_j
 	neq [][2]zAtom
+	// post-conditions that hold only once another fact is established
+	// (the result of Index is at most len-len(sep) only when it is not -1)
+	pending []func()
 }
 
 func newZone() *zone { z := &zone{idx: map[zAtom]int{}}; z.get("0"); return z }
@@ -52,6 +55,9 @@ func (z *zone) get(a zAtom) int {
 // add constraint x - y <= c
 func (z *zone) add(x, y zAtom, c int64) {
 	i, j := z.get(x), z.get(y)
+	if c >= zInf || c <= -zInf {
+		return // outside the representable range: no information
+	}
 	if c < z.d[i][j] {
 		z.d[i][j] = c
 	}
@@ -97,7 +103,8 @@ func (z *zone) close() {
 func (z *zone) le(x, y zAtom, c int64) bool {
 	i, j := z.get(x), z.get(y)
 	z.close()
-	return z.d[i][j] <= c
+	// an absent bound is zInf, whatever the constant it is compared with
+	return z.d[i][j] < zInf && z.d[i][j] <= c
 }
 
 type zLin struct {
@@ -111,9 +118,14 @@ type bfn struct {
 	f      *ssa.Function
 	loadEq map[ssa.Value]ssa.Value
 	notes  []string
+	// subst replaces a join by the alternative under consideration (phiSplit)
+	subst map[ssa.Value]ssa.Value
 }
 
 func (F *bfn) rep(v ssa.Value) ssa.Value {
+	if r, ok := F.subst[v]; ok {
+		v = r
+	}
 	for i := 0; i < 8; i++ {
 		r, ok := F.loadEq[v]
 		if !ok || r == v {
@@ -347,8 +359,22 @@ func (F *bfn) defFacts(z *zone, site ssa.Instruction) {
 							k = int64(len(str))
 						}
 					}
-					z.add(r.a, s.a, s.k-k-r.k) // r <= len - k
-					z.add("0", r.a, 1+r.k)     // r >= -1
+					// r <= len - 1 always (r is -1 or a position); r <= len - k
+					// for a longer separator only when something was found
+					k1 := k
+					if k1 > 1 {
+						k1 = 1
+					}
+					z.add(r.a, s.a, s.k-k1-r.k)
+					z.add("0", r.a, 1+r.k) // r >= -1
+					if k > 1 {
+						kk := k
+						z.pending = append(z.pending, func() {
+							if z.le("0", r.a, r.k) { // r >= 0
+								z.add(r.a, s.a, s.k-kk-r.k)
+							}
+						})
+					}
 				case name == "strings.Split" || name == "bytes.Split" || name == "strings.SplitN" || name == "bytes.SplitN":
 					nonEmptySep := false
 					if sep, ok := constStr(F.rep(x.Call.Args[1])); ok && sep != "" {
@@ -415,6 +441,15 @@ func (F *bfn) defFacts(z *zone, site ssa.Instruction) {
 			case *ssa.Phi:
 				F.phiFacts(z, x)
 			case *ssa.BinOp:
+				if x.Op == token.QUO {
+					// unsigned x / y <= x (y == 0 panics, so y >= 1 wherever the result exists)
+					if bt, ok := x.Type().Underlying().(*types.Basic); ok && bt.Info()&types.IsUnsigned != 0 {
+						r, lhs := F.linear(x), F.linear(x.X)
+						if !r.neg && !lhs.neg {
+							z.add(r.a, lhs.a, lhs.k-r.k)
+						}
+					}
+				}
 				if x.Op == token.REM {
 					r := F.linear(x)
 					rhs := F.linear(x.Y)
@@ -636,6 +671,9 @@ func (F *bfn) pathFacts(z *zone, b *ssa.BasicBlock) {
 	for _, f := range factsAt(b) {
 		F.condFacts(z, f.Cond, f.Truth)
 	}
+	for _, p := range z.pending {
+		p()
+	}
 }
 
 // ---- load equivalence (go/ssa has no CSE) and store-to-load forwarding ----
@@ -666,7 +704,23 @@ func (F *bfn) addrKey(a ssa.Value) string {
 	return ""
 }
 
-var pureCallPrefixes = []string{"strings.", "bytes.", "strconv.", "errors.", "fmt.Errorf", "fmt.Sprintf", "encoding/hex.", "unicode", "math."}
+var pureCallPrefixes = []string{"strings.", "bytes.", "strconv.", "errors.", "fmt.Errorf", "fmt.Sprintf", "fmt.Sprint", "encoding/hex.", "unicode", "math.", "(*bytes.Buffer).", "(*strings.Builder)."}
+
+// writesOnlyBuffer: fmt.Fprint* into an in-memory buffer writes nothing else.
+func writesOnlyBuffer(cc *ssa.CallCommon) bool {
+	n := calleeQ(cc)
+	if n != "fmt.Fprintf" && n != "fmt.Fprint" && n != "fmt.Fprintln" {
+		return false
+	}
+	if len(cc.Args) == 0 {
+		return false
+	}
+	mi, ok := cc.Args[0].(*ssa.MakeInterface)
+	if !ok {
+		return false
+	}
+	return isPtrToNamed(mi.X.Type(), "bytes", "Buffer") || isPtrToNamed(mi.X.Type(), "strings", "Builder")
+}
 
 func (F *bfn) kills(in ssa.Instruction, key string) bool {
 	switch s := in.(type) {
@@ -691,6 +745,9 @@ func (F *bfn) kills(in ssa.Instruction, key string) bool {
 			if strings.HasPrefix(n, p) {
 				return false
 			}
+		}
+		if writesOnlyBuffer(&s.Call) {
+			return false
 		}
 		if strings.HasPrefix(key, "FL(") {
 			return false // field of a non-escaping local: only direct stores write it
@@ -893,7 +950,7 @@ func fieldsIn(v ssa.Value, depth int) []string {
 	switch x := v.(type) {
 	case *ssa.UnOp:
 		if fa, ok := x.X.(*ssa.FieldAddr); ok {
-			return []string{fieldOfAddr(fa).Var.Name()}
+			return []string{vname(fieldOfAddr(fa).Var)}
 		}
 		return fieldsIn(x.X, depth+1)
 	case *ssa.BinOp:
@@ -901,7 +958,7 @@ func fieldsIn(v ssa.Value, depth int) []string {
 	case *ssa.Convert:
 		return fieldsIn(x.X, depth+1)
 	case *ssa.Field:
-		return []string{fieldOfVal(x).Var.Name()}
+		return []string{vname(fieldOfVal(x).Var)}
 	}
 	return nil
 }
@@ -971,49 +1028,11 @@ func (c *Ctx) boundsObligations(keep func(f *ssa.Function) bool) []*boundsOb {
 				z := newZone()
 				F.defFacts(z, in)
 				F.pathFacts(z, b)
-				L := F.lenLin(X)
 				ob := &boundsOb{Fn: f, In: in, Kind: kind, OK: true}
-				zero := zLin{a: "0"}
-				if kind == "index" {
-					i := F.linear(idx)
-					F.floatFacts(z, idx, b)
-					if !z.proveLE(zero, i) {
-						ob.OK = false
-						ob.Why += " index>=0 not established;"
-					}
-					if !z.proveLE(zLin{a: i.a, k: i.k + 1, neg: i.neg}, L) {
-						ob.OK = false
-						ob.Why += " index<len not established;"
-					}
-					// s := make([]T, p+q); s[p+j] with 0 <= j < q
-					if !ob.OK && F.sumIndexProof(z, idx, X) {
-						ob.OK = true
-						ob.Why = ""
-						F.notes = append(F.notes, "index p+j into make(…, p+q): 0 <= j < q, p >= 0")
-					}
-				} else {
-					l := zero
-					if lo != nil {
-						l = F.linear(lo)
-						F.floatFacts(z, lo, b)
-					}
-					h := L
-					if hi != nil {
-						h = F.linear(hi)
-						F.floatFacts(z, hi, b)
-					}
-					if !z.proveLE(zero, l) {
-						ob.OK = false
-						ob.Why += " low>=0 not established;"
-					}
-					if !z.proveLE(l, h) {
-						ob.OK = false
-						ob.Why += " low<=high not established;"
-					}
-					if !z.proveLE(h, L) {
-						ob.OK = false
-						ob.Why += " high<=len not established;"
-					}
+				ob.OK, ob.Why = F.proveOb(z, kind, X, idx, lo, hi, b)
+				if !ob.OK && F.phiSplit(in, b, kind, X, idx, lo, hi) {
+					ob.OK, ob.Why = true, ""
+					F.notes = append(F.notes, "proved separately for each value a clamped bound can take")
 				}
 				if !ob.OK && idx != nil && F.c.usesSharedInt(idx, b, 0) {
 					ob.SharedInt = true
@@ -1026,6 +1045,110 @@ func (c *Ctx) boundsObligations(keep func(f *ssa.Function) bool) []*boundsOb {
 	}
 	sort.SliceStable(out, func(i, j int) bool { return posOf(out[i].In) < posOf(out[j].In) })
 	return out
+}
+
+// proveOb discharges the obligations of one index / slice expression in z.
+func (F *bfn) proveOb(z *zone, kind string, X, idx, lo, hi ssa.Value, fb *ssa.BasicBlock) (bool, string) {
+	L := F.lenLin(X)
+	zero := zLin{a: "0"}
+	ok, why := true, ""
+	if kind == "index" {
+		i := F.linear(idx)
+		F.floatFacts(z, idx, fb)
+		if !z.proveLE(zero, i) {
+			ok = false
+			why += " index>=0 not established;"
+		}
+		if !z.proveLE(zLin{a: i.a, k: i.k + 1, neg: i.neg}, L) {
+			ok = false
+			why += " index<len not established;"
+		}
+		// s := make([]T, p+q); s[p+j] with 0 <= j < q
+		if !ok && F.sumIndexProof(z, idx, X) {
+			ok, why = true, ""
+			F.notes = append(F.notes, "index p+j into make(…, p+q): 0 <= j < q, p >= 0")
+		}
+		return ok, why
+	}
+	l := zero
+	if lo != nil {
+		l = F.linear(lo)
+		F.floatFacts(z, lo, fb)
+	}
+	h := L
+	if hi != nil {
+		h = F.linear(hi)
+		F.floatFacts(z, hi, fb)
+	}
+	if !z.proveLE(zero, l) {
+		ok = false
+		why += " low>=0 not established;"
+	}
+	if !z.proveLE(l, h) {
+		ok = false
+		why += " low<=high not established;"
+	}
+	if !z.proveLE(h, L) {
+		ok = false
+		why += " high<=len not established;"
+	}
+	return ok, why
+}
+
+// phiSplit: a bound that is a join of alternatives (`if n > len(s) { n =
+// len(s) }`) is proved for each alternative under the facts of the path it
+// arrives on.
+func (F *bfn) phiSplit(in ssa.Instruction, b *ssa.BasicBlock, kind string, X, idx, lo, hi ssa.Value) bool {
+	var phi *ssa.Phi
+	for _, v := range []ssa.Value{idx, lo, hi} {
+		if v == nil {
+			continue
+		}
+		w := F.rep(v)
+		if bo, ok := w.(*ssa.BinOp); ok && (bo.Op == token.ADD || bo.Op == token.SUB) {
+			if _, isK := constInt(bo.Y); isK {
+				w = F.rep(bo.X)
+			}
+		}
+		if p, ok := w.(*ssa.Phi); ok {
+			phi = p
+			break
+		}
+	}
+	if phi == nil {
+		return false
+	}
+	pb := phi.Block()
+	if pb != b && !pb.Dominates(b) {
+		return false
+	}
+	for _, pred := range pb.Preds {
+		if pb.Dominates(pred) {
+			return false // a loop-carried value
+		}
+	}
+	defer func() { F.subst = nil }()
+	for i, pred := range pb.Preds {
+		F.subst = map[ssa.Value]ssa.Value{phi: phi.Edges[i]}
+		z := newZone()
+		F.defFacts(z, in)
+		for _, f := range factsAt(pred) {
+			F.condFacts(z, f.Cond, f.Truth)
+		}
+		for _, f := range factsOnEdge(pred, pb) {
+			F.condFacts(z, f.Cond, f.Truth)
+		}
+		F.pathFacts(z, b)
+		for _, v := range []ssa.Value{idx, lo, hi} {
+			if v != nil {
+				F.floatFacts(z, v, pred)
+			}
+		}
+		if ok, _ := F.proveOb(z, kind, X, idx, lo, hi, b); !ok {
+			return false
+		}
+	}
+	return true
 }
 
 // floatFacts: int(x) for a float x bounded by dominating comparisons with
